@@ -10,7 +10,7 @@ from symex.poly import pall_in, pand, pconcat, pcontains, peq, pimplies, plen, p
 
 PROPERTY = "C13"
 BOUNDS = {
-    "quick": {"value_code_points": "<= 3, each U+0000..U+07FF (1- and 2-byte UTF-8)", "max_age": "any int rendered with <= 6 digits"},
+    "quick": {"value_code_points": "<= 3, each U+0000..U+07FF (1- and 2-byte UTF-8); plus 2-3 code points <= U+00FF inside the skeletons \\{} {}\\ \"{}\" {};", "max_age": "any int rendered with <= 6 digits"},
     "thorough": {"value_code_points": "<= 4 over U+0000..U+07FF; <= 2 over all of Unicode incl. surrogates", "max_age": "any int with <= 6 digits"},
 }
 STUBS = ["datetime.now / http_date not reached (sync_expires=False, expires=None)", "urllib.parse.quote runs natively on the concrete path"]
@@ -45,11 +45,16 @@ def escaped_ok(body):
     return ok
 
 
-def body_roundtrip(I, X, n=2, maxcp=0x7FF, environ_level=False):
+def body_roundtrip(I, X, n=2, maxcp=0x7FF, environ_level=False, skeleton=None):
     from werkzeug import http
     from werkzeug.sansio import http as shttp
 
     value = X.str("value", n, minlen=n, maxcp=maxcp)
+    if skeleton is not None:
+        # the solver characters sit inside a fixed text that needs escaping (reaches
+        # multi-character escape sequences with fewer free characters)
+        pre, post = skeleton.split("{}")
+        value = pconcat(pre, value, post)
     X.known("C13-raw-control-1a-1f", pnot(pall_in(value, [(0, 0x19), (0x20, 0x10FFFF)])))
     try:
         rv = I.call(http.dump_cookie, ("k", value), {"path": None})
@@ -139,6 +144,10 @@ def obligations(tier, seed):
             out.append({"name": f"roundtrip[n={n},maxcp=0x10ffff,environ={env}]", "body": "body_roundtrip",
                         "params": {"n": n, "maxcp": 0x10FFFF, "environ_level": env},
                         "opts": {"budget_s": 1500, "ctx": {"max_cp": 0x10FFFF}}})
+        for sk, n in ([("\\{}", 3), ("{}\\", 2), ('"{}"', 2), ("{};", 2)] if quick else [("\\{}", 4), ("{}\\", 3), ('"{}"', 3), ("{};", 3), ("\\{}\\", 3)]):
+            out.append({"name": f"roundtrip-skel[{sk!r},n={n},environ={env}]", "body": "body_roundtrip",
+                        "params": {"n": n, "maxcp": 0xFF, "environ_level": env, "skeleton": sk},
+                        "opts": {"budget_s": 1500, "ctx": {"max_cp": 0xFF}}})
     for n in ([0] if quick else [0, 1]):
         for si in range(len(SAMESITE)):
             for pi in range(len(PATHS)):
